@@ -1,3 +1,66 @@
-(* C13 — assignments are balanced, and the sticky strategy is sticky.  (statements are added as they are proved) *)
+(* C13 — assignments are balanced, and the sticky strategy is sticky.
+   Property statements only; each is closed by [exact] of a lemma proved in C13/Proofs*.v.
+   The strategy models are those of C08 (coq/C08/{Range,RoundRobin,Sticky}.v), the notions are in C13/Model.v. *)
 From Coq Require Import List ZArith.
-From SV Require Import C08.Common C13.Model.
+From SV Require Import C08.Common C08.Range C08.RoundRobin C08.Sticky C08.Valid C13.Model
+  C13.ProofsRange C13.ProofsRR C13.ProofsStickyBalanced C13.ProofsStickyFixed.
+Import ListNotations.
+Open Scope Z_scope.
+
+(* range: for every topic, its subscribers (each once) in non-decreasing hash order receive consecutive slices
+   parts[cut i : cut (i+1)] of the partition list, cut 0 = 0, cut m = n, each of size floor(n/m) or ceil(n/m); the cuts are
+   the binary64 values Go computes.  Sizes below 2^24 (for the rounding-error bound; validity alone holds below 2^31). *)
+Theorem c13_range_contiguous_balanced : forall ms ts p,
+  wf_members ms -> (forall mm, In mm ms -> NoDup (m_topics mm)) -> wf_topics ts ->
+  len (concat (map m_topics ms)) < 2 ^ 24 -> (forall t ps, In (t, ps) ts -> len ps < 2 ^ 24) ->
+  range_plan ms ts = Some p ->
+  forall topic mids, In (topic, mids) (build_mbt [] ms) ->
+    let sorted := sort_by_hash topic mids in
+    let parts := topic_partitions ts topic in
+    let n := len parts in
+    let m := len sorted in
+    (forall x, In x sorted <-> subscribes ms x topic) /\ NoDup sorted /\ hash_sorted topic sorted /\
+    cut n m 0 = 0 /\ cut n m (length sorted) = n /\
+    forall i mid, nth_error sorted i = Some mid ->
+      plan_get p mid topic = range_share parts m i /\ fair_size n m (len (range_share parts m i)).
+Proof. exact range_contiguous_balanced. Qed.
+Print Assumptions c13_range_contiguous_balanced.
+
+(* round robin: if every member subscribes to every topic that has partitions, any two members' totals differ by at most one.
+   (For a subset of identical members among differently subscribed ones this is false: C13/ProofsRR.v, rr_pairwise_counterexample.) *)
+Theorem c13_roundrobin_balanced : forall ms ts p, wf_members ms -> all_subscribe_all ms ts ->
+  rr_plan ms ts = RRPlan p -> totals_within_one ms p.
+Proof. exact rr_balanced. Qed.
+Print Assumptions c13_roundrobin_balanced.
+
+(* sticky (repaired code): every plan Plan returns is balanced in Kafka's sense - a member holding two or more partitions more
+   than another holds none the other could take - for all members, subscriptions, topic maps, user data (honest or not) and
+   iteration orders; excluded as in C08: the revert branch of balance() with fixed members present. *)
+Theorem c13_sticky_balanced : forall fuel o ms ts p, wf_members ms -> wf_topics ts ->
+  let r := sticky_plan_full fuel true o ms ts in
+  p_res r = SOk p -> (p_reverted r = true -> p_nfixed r = 0) -> kafka_balanced ms p.
+Proof. exact sticky_balanced. Qed.
+Print Assumptions c13_sticky_balanced.
+
+(* sticky is sticky, fixed point: re-planning ANY valid, Kafka-balanced plan p (not only one the sticky strategy produced) with
+   unchanged members, subscriptions and partitions, every member reporting what it holds in p under one generation g, returns -
+   in the first pass, for every iteration order - a plan that gives every partition to the same member. *)
+Theorem c13_sticky_fixed_point : forall fuel o ms ts p g,
+  wf_members ms -> wf_topics ts -> valid_plan ms ts p -> kafka_balanced ms p ->
+  exists p', sticky_plan (S fuel) true o (map (report p g) ms) ts = SOk p' /\ same_owners p p'.
+Proof. exact sticky_fixed_point. Qed.
+Print Assumptions c13_sticky_fixed_point.
+
+(* leave / join / any change of the group: what is proved of "the others keep everything" is that nothing is lost before
+   performReassignments: a member that reports a partition (nobody else reporting it), still subscribes to its topic and whose
+   partition still exists, holds it when performReassignments starts.  Partial: the full statements
+   (C13/ProofsStickyFixed.v: sticky_leave_keeps_statement, sticky_join_no_shuffle_statement, sticky_no_pair_swap_statement)
+   additionally need that performReassignments moves nothing between the members concerned; that is evaluated on every
+   honest chain of the check (monitor) and not proved. *)
+Theorem c13_sticky_leave_join_keep_partial : forall o ms ts p g pr,
+  wf_members ms -> wf_topics ts -> NoDup (assigned p) ->
+  sticky_prepare o (map (report p g) ms) ts = Some pr ->
+  forall m x, In m (map m_id ms) -> In x (holds p m) -> subscribes ms m (fst x) -> In x (all_tps ts) ->
+    In x (ca_get (s_ca (pr_s0 pr)) m) \/ In x (ca_get (pr_fixed pr) m).
+Proof. exact preparation_keeps_stated. Qed.
+Print Assumptions c13_sticky_leave_join_keep_partial.
